@@ -76,6 +76,15 @@ def shards(tier):
             out.append({'block': 'FixedPointComparator', 'af': list(a), 'bf': list(b)})
     for f in extra:
         out.append({'block': 'FixedPointComparator', 'af': list(f), 'bf': list(f)})
+    # wide formats (sizes that invite special-casing): boundary-value operand alphabet
+    wide = [(1, 3, 4), (1, 7, 8), (1, 15, 16), (1, 16, 15), (1, 31, 32)] + ([(1, 8, 7), (1, 0, 31), (1, 30, 1), (1, 32, 31)] if T else [])
+    for f in wide:
+        for blk in ('FixedPointAdd', 'FixedPointSub', 'FixedPointMult'):
+            out.append({'block': blk, 'af': list(f), 'bf': list(f), 'rf': list(f), 'corner': 1})
+        out.append({'block': 'FixedPointSign', 'af': list(f), 'corner': 1})
+        out.append({'block': 'FixedPointComparator', 'af': list(f), 'bf': list(f), 'corner': 1})
+    for af, bf, rf in [((1, 7, 8), (1, 3, 12), (1, 15, 16)), ((1, 15, 16), (1, 15, 16), (1, 31, 32)), ((1, 15, 16), (1, 7, 8), (1, 7, 8))]:
+        out.append({'block': 'FixedPointMult', 'af': list(af), 'bf': list(bf), 'rf': list(rf), 'corner': 1})
     return out
 
 
@@ -163,7 +172,7 @@ def _run_config(d):
     """One (block, formats) configuration, all operand pairs."""
     def go(dd):
         try:
-            return _resig(comb.run_comb(dd, build, ref, 'C14'), dd)
+            return _resig(comb.run_comb(dd, build, ref, 'C14', alphabets='corner' if dd.get('corner') else None), dd)
         except Exception as e:      # accepted by the constructor, raises while being simulated
             py4hw.Wire.prepared = []
             return {'configs': 1, 'evaluations': 1, 'distinct_nontrivial': 0, 'vacuous_ok': True, 'distinct_outcomes': 0,
@@ -208,8 +217,9 @@ def _helper_cross_check(d, res):
         return
     n = 0
     reading = res.get('mult_reading', 'floor')
-    for ua in range(1 << w):
-        for ub in range(1 << w):
+    dom = comb.corner_values(w) if d.get('corner') and w > 6 else range(1 << w)
+    for ua in dom:
+        for ub in dom:
             got, exp = helper_case(d, ua, ub, reading)
             n += 1
             if got != exp:
